@@ -13,6 +13,8 @@ DEFAULTS = {'delimiter-start': '<!-- <', 'delimiter-end': '> -->', 'time-limited
             'removal-marker-tag-name': 'removal-marker'}
 TIMES = {'2001-01-01T03:00:00Z': 978318000, '2000-12-31T20:00:00Z': 978292800, '2010-01-01T05:30:00+09:00': 1262291400, '2024-01-01T00:00:00Z': 1704067200, '2005-06-01T09:00:00+09:00': 1117584000, '1999-12-31T23:59:59-08:00': 946713599,
          # a sub-second part: three quarters of a second before the `to` of the third element (2010-01-01 00:00:00 at +00:00)
+         # spellings only chrono's relaxed parser accepts (colon-less zone, blank before the zone, UTC)
+         '2005-06-01T09:00:00+0900': 1117584000, '2005-06-01T09:00:00 +09:00': 1117584000, '2005-06-01T00:00:00 UTC': 1117584000,
          '2009-12-31T23:59:59.750Z': (1262303999, 750000000), '2010-01-01T08:59:59.5+09:00': (1262303999, 500000000)}
 PRINTABLE = tuple(range(0x21, 0x7f))
 
@@ -164,6 +166,7 @@ def c20_jobs(tier, seed):
     J('config file with final newline, marker with empty name', opts=dict(base, **{'removal-marker-target-config': ['t.cfg']}), files={'t.cfg': 'y\n'}, name1='')
     J('empty config file, marker with empty name', opts=dict(base, **{'removal-marker-target-config': ['t.cfg']}), files={'t.cfg': ''}, name1='')
     J('large multi-byte document from stdin', opts=dict(base, **{'removal-marker-target-name': ['x']}), big=1)
+    J('large multi-byte document from a file', opts=dict(base, **{'removal-marker-target-name': ['x'], 'filename': ['in.txt']}), big=1)
     J('large multi-byte document from stdin, list-json', opts=dict(base, **{'removal-marker-target-name': ['x'], 'list': True, 'list-json': True}), big=1)
     J('empty config file', opts=dict(base, **{'removal-marker-target-config': ['t.cfg']}), files={'t.cfg': ''}, name1_len=2)
     # spelling options and times
